@@ -53,6 +53,8 @@ func FileView(path string) []byte
 func WriteFileBytes(path string, b []byte)
 func PokeFile(path string, off int64, v byte)
 func PeekFile(path string, off int64) byte
+func SymbolicTruncate(on bool)
+func LastTruncate() (size int64, any bool)
 func CrashArm()
 func CrashDisarm()
 func RunUntilCrash(f func()) bool
